@@ -1,19 +1,163 @@
-/* E2 target for C03: byte-level fuzzing of the key / signature codecs with round-trip oracles. */
+/* E2 target for C03: byte-level fuzzing of the key / signature codecs.
+ *
+ * Oracles inside the target (all independent of the library's code):
+ *   - a strict DER reader for Ecdsa-Sig-Value written from X.690 (ref_der_parse below): verdict AND values must agree
+ *   - a GMP check of "prefix/length right, coordinates < p, on the curve, hybrid parity" for public keys and x-only keys
+ *   - range check of 32-byte scalars against n with memcmp
+ *   - round trips: serialize(parse(b)) == canonical(b), parse(serialize(o)) == o, DER size negotiation into exact-size heap blocks
+ *   - an object left by a failed / out-of-range parse has r == 0 or s == 0 (exactly the objects that verify for no message and key)
+ *   - contrib/lax_der_parsing.c: never crashes; strict accept => lax accept; same (r,s) when both numbers are in range
+ *   - no illegal / error callback on any input
+ *
+ * Input layout: byte 0 selects the codec (mod 6), the rest is the string.
+ *   0 public key   1 DER signature (strict + lax)   2 compact signature (first 64 bytes)   3 x-only key (first 32 bytes)
+ *   4 recoverable compact: byte 1 = recovery id (mod 4), then 64 bytes      5 compact -> DER -> compact round trip (first 64 bytes)
+ */
 #include "vf_fuzz_common.h"
+#include <gmp.h>
 #include "src/secp256k1.c"
 #include "contrib/lax_der_parsing.c"
 
 const char *const VF_CLASS_NAMES[] = {"pubkey_accept", "pubkey_reject", "der_accept", "der_reject", "compact_accept", "compact_reject",
-                                      "xonly_accept", "xonly_reject", "lax_accept", "lax_reject", "hybrid_accept"};
-const int VF_N_CLASSES = 11;
+                                      "xonly_accept", "xonly_reject", "lax_accept", "lax_reject", "hybrid_accept", "der_out_of_range",
+                                      "rec_accept", "rec_reject", "der_roundtrip", "pubkey_reject_fullsize", "der_reject_seq"};
+const int VF_N_CLASSES = 17;
 
 static secp256k1_context *ctx = NULL;
 static int cb_count = 0;
 static void count_cb(const char *m, void *d) { (void)m; (void)d; cb_count++; }
 
+static const unsigned char ORDER_N[32] = {0xFF,0xFF,0xFF,0xFF,0xFF,0xFF,0xFF,0xFF,0xFF,0xFF,0xFF,0xFF,0xFF,0xFF,0xFF,0xFE,
+                                          0xBA,0xAE,0xDC,0xE6,0xAF,0x48,0xA0,0x3B,0xBF,0xD2,0x5E,0x8C,0xD0,0x36,0x41,0x41};
+static const unsigned char ZERO64[64] = {0};
+
+static int below_n(const unsigned char *b32) { return memcmp(b32, ORDER_N, 32) < 0; }
+/* an object (r,s) of in-range scalars fails verification for EVERY message and key iff r == 0 or s == 0 */
+static int never_verifies(const unsigned char *c64) { return memcmp(c64, ZERO64, 32) == 0 || memcmp(c64 + 32, ZERO64, 32) == 0; }
+
+/* ---------------------------------------------------------------- reference: strict DER (X.690 8.1.3, 8.3, 10.1) */
+/* returns 1 and the definite length, advancing *pos; 0 if the length octets are not DER */
+static int ref_len(const uint8_t *b, size_t n, size_t *pos, size_t *out) {
+    uint8_t b1; size_t k, i; size_t v = 0;
+    if (*pos >= n) return 0;
+    b1 = b[(*pos)++];
+    if (b1 < 0x80) { *out = b1; return 1; }
+    if (b1 == 0x80 || b1 == 0xFF) return 0;
+    k = b1 & 0x7F;
+    if (k > n - *pos) return 0;
+    if (b[*pos] == 0) return 0;
+    if (k > sizeof(size_t)) return 0;          /* certainly longer than the input */
+    for (i = 0; i < k; i++) v = (v << 8) | b[(*pos)++];
+    if (v < 128) return 0;
+    *out = v;
+    return 1;
+}
+
+/* INTEGER at b[*pos..end): returns 1 if well-formed; *inrange tells whether 0 <= value < n, val32 = value then */
+static int ref_int(const uint8_t *b, size_t end, size_t *pos, int *inrange, unsigned char *val32) {
+    size_t len, i; const uint8_t *c;
+    if (*pos >= end || b[*pos] != 0x02) return 0;
+    (*pos)++;
+    if (!ref_len(b, end, pos, &len)) return 0;
+    if (len == 0 || len > end - *pos) return 0;
+    c = b + *pos;
+    if (len > 1 && c[0] == 0x00 && (c[1] & 0x80) == 0) return 0;
+    if (len > 1 && c[0] == 0xFF && (c[1] & 0x80) != 0) return 0;
+    *pos += len;
+    memset(val32, 0, 32);
+    *inrange = 0;
+    if (c[0] & 0x80) return 1;                 /* negative */
+    if (c[0] == 0 && len > 1) { c++; len--; }
+    if (len > 32) return 1;                    /* >= 2^256 */
+    for (i = 0; i < len; i++) val32[32 - len + i] = c[i];
+    if (!below_n(val32)) { memset(val32, 0, 32); return 1; }
+    *inrange = 1;
+    return 1;
+}
+
+static int ref_der_parse(const uint8_t *b, size_t n, int *r_ok, unsigned char *r32, int *s_ok, unsigned char *s32) {
+    size_t pos = 0, len;
+    if (n < 1 || b[0] != 0x30) return 0;
+    pos = 1;
+    if (!ref_len(b, n, &pos, &len)) return 0;
+    if (len != n - pos) return 0;
+    if (!ref_int(b, n, &pos, r_ok, r32)) return 0;
+    if (!ref_int(b, n, &pos, s_ok, s32)) return 0;
+    return pos == n;
+}
+
+/* ---------------------------------------------------------------- reference: curve membership with GMP */
+static mpz_t FP; static int gmp_init = 0;
+static void ref_init(void) {
+    if (!gmp_init) { mpz_init_set_str(FP, "FFFFFFFFFFFFFFFFFFFFFFFFFFFFFFFFFFFFFFFFFFFFFFFFFFFFFFFEFFFFFC2F", 16); gmp_init = 1; }
+}
+/* rhs = x^3 + 7 mod p ; returns 0 if x >= p */
+static int ref_rhs(mpz_t rhs, const unsigned char *x32) {
+    mpz_t x; int ok;
+    mpz_init(x);
+    mpz_import(x, 32, 1, 1, 1, 0, x32);
+    ok = mpz_cmp(x, FP) < 0;
+    if (ok) { mpz_powm_ui(rhs, x, 3, FP); mpz_add_ui(rhs, rhs, 7); mpz_mod(rhs, rhs, FP); }
+    mpz_clear(x);
+    return ok;
+}
+/* 1 iff the string is an admissible public key encoding */
+static int ref_pubkey_ok(const uint8_t *b, size_t n) {
+    mpz_t rhs, y; int ok = 0;
+    ref_init();
+    mpz_init(rhs); mpz_init(y);
+    if (n == 33 && (b[0] == 2 || b[0] == 3)) {
+        /* x < p and x^3+7 a (non-zero) square: rhs = 0 would mean y = 0, impossible on this curve but handle it as a point */
+        if (ref_rhs(rhs, b + 1)) ok = (mpz_sgn(rhs) == 0) || (mpz_legendre(rhs, FP) == 1);
+    } else if (n == 65 && (b[0] == 4 || b[0] == 6 || b[0] == 7)) {
+        if (ref_rhs(rhs, b + 1)) {
+            mpz_import(y, 32, 1, 1, 1, 0, b + 33);
+            if (mpz_cmp(y, FP) < 0) {
+                int odd = mpz_odd_p(y);
+                mpz_mul(y, y, y); mpz_mod(y, y, FP);
+                ok = mpz_cmp(y, rhs) == 0;
+                if (ok && b[0] != 4 && odd != (b[0] == 7)) ok = 0;
+            }
+        }
+    }
+    mpz_clear(rhs); mpz_clear(y);
+    return ok;
+}
+static int ref_xonly_ok(const uint8_t *b32) {
+    mpz_t rhs; int ok = 0;
+    ref_init();
+    mpz_init(rhs);
+    if (ref_rhs(rhs, b32)) ok = (mpz_sgn(rhs) == 0) || (mpz_legendre(rhs, FP) == 1);
+    mpz_clear(rhs);
+    return ok;
+}
+
+/* DER size negotiation + round trip for any signature object */
+static void check_der_serialize(const secp256k1_ecdsa_signature *sig, const unsigned char *expect, size_t expect_len) {
+    unsigned char big[80]; size_t ol = sizeof(big), need;
+    unsigned char c1[64], c2[64];
+    secp256k1_ecdsa_signature back;
+    VF_CHECK(secp256k1_ecdsa_signature_serialize_der(ctx, big, &ol, sig) == 1, "der serialize failed with a 80-byte buffer");
+    need = ol;
+    VF_CHECK(need >= 8 && need <= 72, "der serialization length out of the possible range");
+    if (expect) VF_CHECK(need == expect_len && memcmp(big, expect, need) == 0, "DER serialize(parse(b)) != b");
+    { unsigned char *small = (unsigned char *)malloc(need - 1); size_t sl = need - 1;
+      VF_CHECK(secp256k1_ecdsa_signature_serialize_der(ctx, small, &sl, sig) == 0, "der serialize into a too small buffer succeeded");
+      VF_CHECK(sl == need, "der serialize did not report the needed size"); free(small); }
+    { unsigned char *exact = (unsigned char *)malloc(need); size_t el = need;
+      VF_CHECK(secp256k1_ecdsa_signature_serialize_der(ctx, exact, &el, sig) == 1 && el == need, "der serialize into an exact buffer failed");
+      VF_CHECK(memcmp(exact, big, need) == 0, "der serialize not deterministic");
+      VF_CHECK(secp256k1_ecdsa_signature_parse_der(ctx, &back, exact, need) == 1, "parse_der(serialize_der(o)) failed");
+      free(exact); }
+    secp256k1_ecdsa_signature_serialize_compact(ctx, c1, sig);
+    secp256k1_ecdsa_signature_serialize_compact(ctx, c2, &back);
+    VF_CHECK(memcmp(c1, c2, 64) == 0, "parse_der(serialize_der(o)) != o");
+}
+
 int LLVMFuzzerTestOneInput(const uint8_t *data, size_t size) {
     uint8_t sel;
     unsigned char *in;
+    const uint8_t *whole = data; size_t whole_size = size;
     vf_begin();
     if (!ctx) {
         ctx = secp256k1_context_create(SECP256K1_CONTEXT_NONE);
@@ -22,76 +166,108 @@ int LLVMFuzzerTestOneInput(const uint8_t *data, size_t size) {
     }
     cb_count = 0;
     if (size < 1) return 0;
-    sel = data[0] % 4; data++; size--;
+    sel = data[0] % 6; data++; size--;
     /* exact-size heap copy so that any over-read is an ASan report */
     in = (unsigned char *)malloc(size ? size : 1);
     memcpy(in, data, size);
     if (sel == 0) {
         secp256k1_pubkey pk, pk2;
-        if (secp256k1_ec_pubkey_parse(ctx, &pk, in, size)) {
-            unsigned char out[65], out2[65]; size_t ol = 65, ol2 = 33;
+        int ok = secp256k1_ec_pubkey_parse(ctx, &pk, in, size);
+        VF_CHECK(ok == ref_pubkey_ok(in, size), "ec_pubkey_parse verdict differs from the format (length/prefix/x,y<p/on curve/hybrid parity)");
+        if (ok) {
+            unsigned char *out = (unsigned char *)malloc(size), *out2 = (unsigned char *)malloc(size == 33 ? 65 : 33);
+            size_t ol = size, ol2 = (size == 33 ? 65 : 33);
             vf_class(0);
-            VF_CHECK(size == 33 || size == 65, "pubkey accepted with wrong length");
             VF_CHECK(secp256k1_ec_pubkey_serialize(ctx, out, &ol, &pk, size == 33 ? SECP256K1_EC_COMPRESSED : SECP256K1_EC_UNCOMPRESSED) == 1, "serialize failed");
             VF_CHECK(ol == size, "serialize length");
-            if (in[0] == 6 || in[0] == 7) { vf_class(10); VF_CHECK(out[0] == 4 && memcmp(out + 1, in + 1, 64) == 0, "hybrid does not map to uncompressed"); VF_CHECK((in[64] & 1) == (in[0] & 1), "hybrid parity"); }
+            if (in[0] == 6 || in[0] == 7) { vf_class(10); VF_CHECK(out[0] == 4 && memcmp(out + 1, in + 1, 64) == 0, "hybrid does not map to uncompressed"); }
             else VF_CHECK(memcmp(out, in, size) == 0, "serialize(parse(b)) != b");
-            VF_CHECK(secp256k1_ec_pubkey_serialize(ctx, out2, &ol2, &pk, SECP256K1_EC_COMPRESSED) == 1 && ol2 == 33, "compressed serialize");
-            VF_CHECK(secp256k1_ec_pubkey_parse(ctx, &pk2, out2, 33) == 1, "parse(serialize(o)) failed");
+            VF_CHECK(secp256k1_ec_pubkey_serialize(ctx, out2, &ol2, &pk, size == 33 ? SECP256K1_EC_UNCOMPRESSED : SECP256K1_EC_COMPRESSED) == 1 && ol2 == (size == 33 ? 65u : 33u), "other-format serialize");
+            VF_CHECK(memcmp(out2 + 1, in + 1, 32) == 0, "other-format serialization has a different x");
+            VF_CHECK(secp256k1_ec_pubkey_parse(ctx, &pk2, out2, ol2) == 1, "parse(serialize(o)) failed");
             VF_CHECK(secp256k1_ec_pubkey_cmp(ctx, &pk, &pk2) == 0, "parse(serialize(o)) != o");
-            vf_nontrivial(data - 1, size + 1);
-        } else { vf_class(1); if (size == 33 || size == 65) vf_nontrivial(data - 1, size + 1); }
+            free(out); free(out2);
+            if (in[0] != 2 && in[0] != 3 && in[0] != 4) vf_nontrivial(whole, whole_size);
+        } else { vf_class(1); if (size == 33 || size == 65) { vf_class(15); vf_nontrivial(whole, whole_size); } }
     } else if (sel == 1) {
         secp256k1_ecdsa_signature sig, lsig;
-        int ok = secp256k1_ecdsa_signature_parse_der(ctx, &sig, in, size);
-        int lok = ecdsa_signature_parse_der_lax(ctx, &lsig, in, size);
+        unsigned char r32[32], s32[32], c1[64], c2[64];
+        int r_ok = 0, s_ok = 0;
+        int ok, lok, ref;
+        memset(&sig, 0x77, sizeof(sig));
+        ok = secp256k1_ecdsa_signature_parse_der(ctx, &sig, in, size);
+        lok = ecdsa_signature_parse_der_lax(ctx, &lsig, in, size);
+        ref = ref_der_parse(in, size, &r_ok, r32, &s_ok, s32);
         vf_class(lok ? 8 : 9);
+        VF_CHECK(ok == ref, "signature_parse_der verdict differs from strict DER");
+        secp256k1_ecdsa_signature_serialize_compact(ctx, c1, &sig);
         if (ok) {
-            unsigned char out[80]; size_t ol = 80; unsigned char c1[64], c2[64];
-            size_t need;
             vf_class(2);
-            VF_CHECK(secp256k1_ecdsa_signature_serialize_der(ctx, out, &ol, &sig) == 1, "der serialize failed");
-            secp256k1_ecdsa_signature_serialize_compact(ctx, c1, &sig);
-            {
-                /* integers that were negative / oversized parse to 0: then the re-serialisation legitimately differs */
-                static const unsigned char z[32] = {0};
-                if (memcmp(c1, z, 32) != 0 && memcmp(c1 + 32, z, 32) != 0) {
-                    VF_CHECK(ol == size && memcmp(out, in, size) == 0, "DER serialize(parse(b)) != b");
-                    VF_CHECK(lok, "strict DER accepts, lax rejects");
-                    secp256k1_ecdsa_signature_serialize_compact(ctx, c2, &lsig);
-                    VF_CHECK(memcmp(c1, c2, 64) == 0, "lax parser yields different (r,s)");
-                }
+            VF_CHECK(lok, "strict DER accepts, lax parser rejects");
+            if (r_ok && s_ok) {
+                VF_CHECK(memcmp(c1, r32, 32) == 0 && memcmp(c1 + 32, s32, 32) == 0, "DER-parsed object holds different numbers than encoded");
+                check_der_serialize(&sig, in, size);
+                secp256k1_ecdsa_signature_serialize_compact(ctx, c2, &lsig);
+                VF_CHECK(memcmp(c1, c2, 64) == 0, "lax parser yields different (r,s)");
+            } else {
+                /* out-of-range number: documented to parse and never to verify; the usable half must not be a reduced value */
+                vf_class(11);
+                VF_CHECK(never_verifies(c1), "DER with an out-of-range number left an object that can verify");
+                check_der_serialize(&sig, NULL, 0);
+                vf_nontrivial(whole, whole_size);
             }
-            need = ol;
-            { unsigned char *small = (unsigned char *)malloc(need ? need - 1 : 1); size_t sl = need - 1;
-              VF_CHECK(secp256k1_ecdsa_signature_serialize_der(ctx, small, &sl, &sig) == 0, "der serialize into too-small buffer succeeded");
-              VF_CHECK(sl == need, "der serialize did not report the needed size"); free(small); }
-            { unsigned char *exact = (unsigned char *)malloc(need); size_t el = need;
-              VF_CHECK(secp256k1_ecdsa_signature_serialize_der(ctx, exact, &el, &sig) == 1 && el == need, "der serialize into exact buffer failed"); free(exact); }
-            vf_nontrivial(data - 1, size + 1);
-        } else { vf_class(3); if (size > 6 && in[0] == 0x30) vf_nontrivial(data - 1, size + 1); }
-    } else if (sel == 2) {
+        } else {
+            vf_class(3);
+            VF_CHECK(never_verifies(c1), "rejected DER signature leaves an object that can verify");
+            if (size > 6 && in[0] == 0x30) { vf_class(16); vf_nontrivial(whole, whole_size); }
+        }
+        if (!lok) {
+            secp256k1_ecdsa_signature_serialize_compact(ctx, c2, &lsig);
+            VF_CHECK(never_verifies(c2), "lax parser rejected but left an object that can verify");
+        }
+    } else if (sel == 2 || sel == 5) {
         if (size >= 64) {
             secp256k1_ecdsa_signature sig; unsigned char out[64];
-            if (secp256k1_ecdsa_signature_parse_compact(ctx, &sig, in)) {
+            int ok, ref = below_n(in) && below_n(in + 32);
+            memset(&sig, 0x77, sizeof(sig));
+            ok = secp256k1_ecdsa_signature_parse_compact(ctx, &sig, in);
+            VF_CHECK(ok == ref, "signature_parse_compact verdict differs from the range rule");
+            secp256k1_ecdsa_signature_serialize_compact(ctx, out, &sig);
+            if (ok) {
                 vf_class(4);
-                secp256k1_ecdsa_signature_serialize_compact(ctx, out, &sig);
                 VF_CHECK(memcmp(out, in, 64) == 0, "compact serialize(parse(b)) != b");
+                if (sel == 5) { vf_class(14); check_der_serialize(&sig, NULL, 0); }
             } else {
-                static const unsigned char z[64] = {0};
                 vf_class(5);
-                secp256k1_ecdsa_signature_serialize_compact(ctx, out, &sig);
-                VF_CHECK(memcmp(out, z, 64) == 0, "rejected compact signature leaves a non-zero object");
-                vf_nontrivial(data - 1, size + 1);
+                VF_CHECK(never_verifies(out), "rejected compact signature leaves an object that can verify");
+                vf_nontrivial(whole, whole_size);
             }
         }
-    } else {
+    } else if (sel == 3) {
         if (size >= 32) {
             secp256k1_xonly_pubkey xpk; unsigned char out[32];
-            if (secp256k1_xonly_pubkey_parse(ctx, &xpk, in)) {
+            int ok = secp256k1_xonly_pubkey_parse(ctx, &xpk, in);
+            VF_CHECK(ok == ref_xonly_ok(in), "xonly_pubkey_parse verdict differs from the format (x<p, on curve)");
+            if (ok) {
                 vf_class(6);
                 VF_CHECK(secp256k1_xonly_pubkey_serialize(ctx, out, &xpk) == 1 && memcmp(out, in, 32) == 0, "xonly roundtrip");
-            } else { vf_class(7); vf_nontrivial(data - 1, size + 1); }
+            } else { vf_class(7); vf_nontrivial(whole, whole_size); }
+        }
+    } else {
+        if (size >= 65) {
+            secp256k1_ecdsa_recoverable_signature rsig; secp256k1_ecdsa_signature conv; unsigned char out[64];
+            int recid = in[0] % 4, rid = -1;
+            int ref = below_n(in + 1) && below_n(in + 33);
+            int ok = secp256k1_ecdsa_recoverable_signature_parse_compact(ctx, &rsig, in + 1, recid);
+            VF_CHECK(ok == ref, "recoverable parse_compact verdict differs from the range rule");
+            if (ok) {
+                vf_class(12);
+                VF_CHECK(secp256k1_ecdsa_recoverable_signature_serialize_compact(ctx, out, &rid, &rsig) == 1, "recoverable serialize failed");
+                VF_CHECK(rid == recid && memcmp(out, in + 1, 64) == 0, "recoverable serialize(parse(b)) != b");
+                secp256k1_ecdsa_recoverable_signature_convert(ctx, &conv, &rsig);
+                secp256k1_ecdsa_signature_serialize_compact(ctx, out, &conv);
+                VF_CHECK(memcmp(out, in + 1, 64) == 0, "convert(recoverable) holds a different (r,s)");
+            } else { vf_class(13); vf_nontrivial(whole, whole_size); }
         }
     }
     VF_CHECK(cb_count == 0, "illegal/error callback fired on untrusted bytes");
